@@ -1,5 +1,7 @@
 import CalicoVerif.Proofs.C12Bridge
 import CalicoVerif.Proofs.C12Nets
+import CalicoVerif.Proofs.C12BridgeFull
+import CalicoVerif.Proofs.C12BridgeNets
 import CalicoVerif.Proofs.C09
 import CalicoVerif.Props.C11
 /-!
@@ -39,7 +41,14 @@ Other theorems:
   with the BPF program's verdict (`C11.polprog_verdict_partial`) on that fragment.  The iptables
   side with CIDRs is covered by the correspondence run (real renderer + chain evaluator) only, not
   by a theorem — the composition with a10's chain theorem stays protocol-only (`_partial`).
-* `profile_pass_disagree`, `stale_pass_mark_disagree` — the full statement is FALSE: witnesses.
+* `references_agree_full_partial`, `ipt_bpf_agree_full_partial` — the two REFERENCE semantics
+  (`Model/Policy.ruleMatches` / `C09.endpointVerdict`, and the C11 reference) are unified for ALL
+  criteria (IPv4 CIDR lists, ports, named ports, IP sets, (ip,port) sets, ICMP and the negations), and the
+  rendered iptables/nftables chains and the BPF program agree on that fragment;
+  `dataplanes_agree_nets_partial` — the three-way statement (with the checker model) extended by the
+  literal CIDR criteria.
+* `profile_pass_disagree`, `stale_pass_mark_disagree`, `checker_ignores_ip_family` — the full statement
+  is FALSE: witnesses.
 -/
 namespace CalicoVerif.C12
 open CalicoVerif.C11
@@ -316,6 +325,26 @@ example : NetsL4 exNets := ⟨rfl, by intro n hn; simp [exNets] at hn; rcases hn
 example : matchRuleN exNets 6 0x0a010203 0x0a000002 = false ∧ matchRuleN exNets 6 0x0a010203 0xc0a80001 = true ∧
     matchRuleN exNets 6 0xc0a80001 0xc0a80001 = false := by decide
 
+/-! ### The checker ignores the IP family of a rule (finding) -/
+
+/-- **The full statement is FALSE of the current code**: the dataplanes first restrict every rule to the
+IP version they render (`rules.FilterRuleToIPVersion`: a rule with explicit `ipVersion: 6`, or one whose
+negated CIDR list holds only IPv6 CIDRs, is DROPPED from the IPv4 dataplane), the app-policy checker
+neither reads `Rule.IpVersion` nor drops such rules — so "allow, ipVersion 6" and
+"allow, notNets [2001:db8::/32]" allow an IPv4 flow in the checker while iptables/nftables and BPF
+skip the rule.  (Positive lists agree: an IPv6 CIDR never contains an IPv4 address.) -/
+theorem checker_ignores_ip_family :
+    let r6 : Rule := { action := "allow", ipVersion := 6 }
+    let rn : Rule := { action := "allow", notSrcNet := [{ v6 := true, addr := 0x20010db8000000000000000000000000, pfx := 32 }] }
+    (matchRuleN r6 6 0x0a000001 0x0a000002 = true ∧ filterRule false r6 = none) ∧
+    (matchRuleN rn 6 0x0a000001 0x0a000002 = true ∧ filterRule false rn = none) ∧
+    -- whole verdicts: one tier, default deny
+    checkTiersN 6 0x0a000001 0x0a000002 [] [{ endAction := .deny, endRuleID := 0, policies := [⟨[r6]⟩] }] = some true ∧
+    bpfVerdict { c := {} } { tiers := [{ endAction := .deny, endRuleID := 0, policies := [⟨[r6]⟩] }] }
+      { src := [0, 0, 0, 0], preDst := [0, 0, 0, 0], postDst := [0, 0, 0, 0], sport := 0, icmpW := 0, preDport := 0,
+        postDport := 0, proto := 6, flags := 0 } = .deny := by
+  decide
+
 /-- **All dataplanes agree** (common fragment, see the header). -/
 theorem dataplanes_agree_partial
     -- the shared policy state and packet
@@ -379,6 +408,158 @@ theorem dataplanes_agree_partial
   · exact checker_tiers_ref env (pktOfD st) _ hn rfl
       (wlRules tiers profiles np)
       (fun t ht => ⟨(hct t ht).1, common_L4 (hct t ht).2⟩) (common_L4 hcp.1)
+
+/-- **The two reference semantics are unified beyond the protocol-only fragment**: for rules with ANY
+criterion (protocol, IPv4 CIDR lists, numeric and named ports, IP sets, (ip,port) sets, ICMP type/code
+and all their negations — `RuleFullN`: as the API validates them, CIDRs IPv4), a10's `C09.endpointVerdict` over
+`Model/Policy.ruleMatches` of the translated rules equals the C11 reference workload verdict, when
+the two environments describe the same packet, the same IP sets and the same CIDR containment (`EnvRelN`). -/
+theorem references_agree_full_partial {N : NamesN} {env9 : Netfilter.Env} {pkt9 : Netfilter.Packet} {env : Env} {p : Pkt}
+    (he : EnvRelN N env9 pkt9 env p) (tiers : List Tier) (profiles : List Policy)
+    (hct : TiersOkG RuleFullN tiers) (hcp : ProfilesOkG RuleFullN profiles) :
+    C09.endpointVerdict (tiers.map (fun t => (outsG env9 pkt9 (trRuleFN N) t.policies, t.endAction == .pass)))
+        (outsG env9 pkt9 (trRuleFN N) profiles) =
+      toV9 (match evalTiers env p .dest tiers with
+        | .allow => Verdict.allow
+        | .deny => .deny
+        | _ => (match evalProfiles true env p profiles with | .allow => .allow | _ => .deny)) :=
+  endpointVerdict_bridgeG (ruleBridge_fullN he) profiles hcp tiers hct
+
+/-- **iptables/nftables and BPF agree, all criteria (CIDRs: IPv4)**: the rendered endpoint chain
+(a10's `C09.endpoint_chain_verdict_core`) and the interpreted BPF policy program
+(`C11.polprog_verdict_partial`) yield the same verdict, over ONE reference
+(`references_agree_full_partial`).  Same hypotheses as `dataplanes_agree_partial`, with `RuleFullN`
+rules and `EnvRelN` instead of the protocol-only fragment; the app-policy checker is not part of this
+statement (its model covers protocol and CIDR criteria only: `dataplanes_agree_nets_partial`). -/
+theorem ipt_bpf_agree_full_partial
+    (N : NamesN) (tiers : List Tier) (profiles : List Policy) (np : Nat) (env : Env) (st : List Byte)
+    (hct : TiersOkG RuleFullN tiers) (hcp : ProfilesOkG RuleFullN profiles)
+    (hok : ProgOK env st (wlRules tiers profiles np))
+    (hs : env.stateOK = true) (hnosplit : NoSplit env.c (flat (compile env.c (wlRules tiers profiles np))))
+    (hshort : (flat (compile env.c (wlRules tiers profiles np))).length < env.c.trampolineStride)
+    (prog : List Insn)
+    (hi : instructions env.c (wlRules tiers profiles np) = some (some [prog]))
+    (cfg : C08.Cfg) (mo : C08.MarksOK cfg) (vb : C09.VBits cfg) (vd : C09.VD cfg) (e : C09.EpCfg) (env9 : Netfilter.Env)
+    (pkt9 : Netfilter.Packet) (chains : List Netfilter.Chain) (name : String) (tiers9 : List C09.Tier)
+    (profiles9 : List String) (polRules : String → List Policy.Rule) (out : String → C09.PolOutcome) (F : Nat)
+    (m : Netfilter.Mark)
+    (h1 : e.chainType = .normal) (h2 : e.adminUp = true) (h3 : e.failsafe = "")
+    (h4 : pkt9.ctState ≠ "RELATED" ∧ pkt9.ctState ≠ "ESTABLISHED" ∧ pkt9.ctState ≠ "INVALID")
+    (h5 : (e.dropVXLAN = true → pkt9.proto ≠ 17) ∧ (e.dropIPIP = true → pkt9.proto ≠ 4))
+    (h6 : m &&& cfg.markDrop = 0)
+    (h7 : Netfilter.lookupChain chains name = some (C09.endpointChain cfg e name tiers9 profiles9).rules)
+    (h8 : ∀ t ∈ tiers9, ∀ g ∈ t.groups, g.inlined = false →
+      Netfilter.lookupChain chains g.chain = some (C09.policyGroupChain cfg g).rules)
+    (h9 : ∀ t ∈ tiers9, ∀ g ∈ t.groups, ∀ p ∈ g.pols, p.staged = false →
+      C09.PolicyChainOK cfg env9 pkt9 chains (polRules p.chain) p.chain)
+    (h10 : ∀ p ∈ profiles9, C09.ProfileChainOK cfg env9 pkt9 chains (polRules p) p)
+    (o1 : ∀ t ∈ tiers9, ∀ g ∈ t.groups, g.inlined = true → ∀ p ∈ g.nonStaged,
+      out p.chain = C09.policyOutcome env9 pkt9.v6 pkt9 (polRules p.chain))
+    (o2 : ∀ t ∈ tiers9, ∀ g ∈ t.groups, g.inlined = false →
+      out g.chain = C09.firstDecision (g.nonStaged.map fun p => C09.policyOutcome env9 pkt9.v6 pkt9 (polRules p.chain)))
+    (o3 : ∀ p ∈ profiles9, out p = C09.policyOutcome env9 pkt9.v6 pkt9 (polRules p))
+    (he : EnvRelN N env9 pkt9 env (pktOfD st))
+    (hT : tiers9.map (fun t => ((C09.tierTargets t).map (fun th => out th.1), t.defaultPass)) =
+      tiers.map (fun t => (outsG env9 pkt9 (trRuleFN N) t.policies, t.endAction == .pass)))
+    (hP : profiles9.map out = outsG env9 pkt9 (trRuleFN N) profiles) :
+    ∃ v : Verdict,
+      C09.VShape cfg (toV9 v) (Netfilter.evalChain env9 chains pkt9 (F + 4) name m) ∧
+      (∃ o, (execL env prog (Mach.init st)).obs = some o ∧ (expectedObs env false v).agrees o = true) := by
+  refine ⟨bpfVerdict env (wlRules tiers profiles np) (pktOfD st), ?_, ?_⟩
+  · have h09 := C09.endpoint_chain_verdict_core cfg mo vb vd e env9 pkt9 chains name tiers9 profiles9 polRules out F m
+      h1 h2 h3 h4 h5 h6 h7 h8 h9 h10 o1 o2 o3
+    rw [hT, hP, references_agree_full_partial he tiers profiles hct hcp] at h09
+    have heq : bpfVerdict env (wlRules tiers profiles np) (pktOfD st) =
+        (match evalTiers env (pktOfD st) .dest tiers with
+          | .allow => Verdict.allow
+          | .deny => .deny
+          | _ => (match evalProfiles true env (pktOfD st) profiles with | .allow => .allow | _ => .deny)) := by
+      simp only [bpfVerdict, workloadVerdict, wlRules, Bool.false_eq_true, if_false]
+      cases evalTiers env (pktOfD st) .dest tiers <;> simp <;> (cases evalProfiles true env (pktOfD st) profiles <;> rfl)
+    rw [heq]
+    exact h09
+  · have := polprog_verdict_partial env st _ hok hs hnosplit hshort prog hi
+    rw [verdict_workload] at this
+    exact this
+
+/-- **All three agree with literal CIDRs**: on rules carrying protocol / not-protocol and IPv4 source /
+not-source / destination / not-destination CIDR lists (the intersection of `RuleFullN` and `NetsL4`),
+the rendered iptables/nftables endpoint chain, the interpreted BPF program AND the app-policy checker
+model yield the same verdict — `dataplanes_agree_partial` extended by the CIDR criteria. -/
+theorem dataplanes_agree_nets_partial
+    (N : NamesN) (tiers : List Tier) (profiles : List Policy) (np : Nat) (env : Env) (st : List Byte) (src dst : Nat)
+    (hct : TiersOkG RuleFullN tiers) (hcp : ProfilesOkG RuleFullN profiles)
+    (hctN : TiersNetsL4 tiers) (hcpN : PoliciesNetsL4 profiles)
+    (hn : 1 ≤ (pktOfD st).proto.toNat) (hf : FlowAddrs (pktOfD st) src dst)
+    (hok : ProgOK env st (wlRules tiers profiles np))
+    (hs : env.stateOK = true) (hnosplit : NoSplit env.c (flat (compile env.c (wlRules tiers profiles np))))
+    (hshort : (flat (compile env.c (wlRules tiers profiles np))).length < env.c.trampolineStride)
+    (prog : List Insn)
+    (hi : instructions env.c (wlRules tiers profiles np) = some (some [prog]))
+    (cfg : C08.Cfg) (mo : C08.MarksOK cfg) (vb : C09.VBits cfg) (vd : C09.VD cfg) (e : C09.EpCfg) (env9 : Netfilter.Env)
+    (pkt9 : Netfilter.Packet) (chains : List Netfilter.Chain) (name : String) (tiers9 : List C09.Tier)
+    (profiles9 : List String) (polRules : String → List Policy.Rule) (out : String → C09.PolOutcome) (F : Nat)
+    (m : Netfilter.Mark)
+    (h1 : e.chainType = .normal) (h2 : e.adminUp = true) (h3 : e.failsafe = "")
+    (h4 : pkt9.ctState ≠ "RELATED" ∧ pkt9.ctState ≠ "ESTABLISHED" ∧ pkt9.ctState ≠ "INVALID")
+    (h5 : (e.dropVXLAN = true → pkt9.proto ≠ 17) ∧ (e.dropIPIP = true → pkt9.proto ≠ 4))
+    (h6 : m &&& cfg.markDrop = 0)
+    (h7 : Netfilter.lookupChain chains name = some (C09.endpointChain cfg e name tiers9 profiles9).rules)
+    (h8 : ∀ t ∈ tiers9, ∀ g ∈ t.groups, g.inlined = false →
+      Netfilter.lookupChain chains g.chain = some (C09.policyGroupChain cfg g).rules)
+    (h9 : ∀ t ∈ tiers9, ∀ g ∈ t.groups, ∀ p ∈ g.pols, p.staged = false →
+      C09.PolicyChainOK cfg env9 pkt9 chains (polRules p.chain) p.chain)
+    (h10 : ∀ p ∈ profiles9, C09.ProfileChainOK cfg env9 pkt9 chains (polRules p) p)
+    (o1 : ∀ t ∈ tiers9, ∀ g ∈ t.groups, g.inlined = true → ∀ p ∈ g.nonStaged,
+      out p.chain = C09.policyOutcome env9 pkt9.v6 pkt9 (polRules p.chain))
+    (o2 : ∀ t ∈ tiers9, ∀ g ∈ t.groups, g.inlined = false →
+      out g.chain = C09.firstDecision (g.nonStaged.map fun p => C09.policyOutcome env9 pkt9.v6 pkt9 (polRules p.chain)))
+    (o3 : ∀ p ∈ profiles9, out p = C09.policyOutcome env9 pkt9.v6 pkt9 (polRules p))
+    (he : EnvRelN N env9 pkt9 env (pktOfD st))
+    (hT : tiers9.map (fun t => ((C09.tierTargets t).map (fun th => out th.1), t.defaultPass)) =
+      tiers.map (fun t => (outsG env9 pkt9 (trRuleFN N) t.policies, t.endAction == .pass)))
+    (hP : profiles9.map out = outsG env9 pkt9 (trRuleFN N) profiles) :
+    ∃ v : Verdict,
+      C09.VShape cfg (toV9 v) (Netfilter.evalChain env9 chains pkt9 (F + 4) name m) ∧
+      (∃ o, (execL env prog (Mach.init st)).obs = some o ∧ (expectedObs env false v).agrees o = true) ∧
+      checkTiersN ((pktOfD st).proto.toNat : Int) src dst profiles tiers = some (v == .allow) := by
+  refine ⟨bpfVerdict env (wlRules tiers profiles np) (pktOfD st), ?_, ?_, ?_⟩
+  · have h09 := C09.endpoint_chain_verdict_core cfg mo vb vd e env9 pkt9 chains name tiers9 profiles9 polRules out F m
+      h1 h2 h3 h4 h5 h6 h7 h8 h9 h10 o1 o2 o3
+    rw [hT, hP, references_agree_full_partial he tiers profiles hct hcp] at h09
+    have heq : bpfVerdict env (wlRules tiers profiles np) (pktOfD st) =
+        (match evalTiers env (pktOfD st) .dest tiers with
+          | .allow => Verdict.allow
+          | .deny => .deny
+          | _ => (match evalProfiles true env (pktOfD st) profiles with | .allow => .allow | _ => .deny)) := by
+      simp only [bpfVerdict, workloadVerdict, wlRules, Bool.false_eq_true, if_false]
+      cases evalTiers env (pktOfD st) .dest tiers <;> simp <;> (cases evalProfiles true env (pktOfD st) profiles <;> rfl)
+    rw [heq]
+    exact h09
+  · have := polprog_verdict_partial env st _ hok hs hnosplit hshort prog hi
+    rw [verdict_workload] at this
+    exact this
+  · exact checker_tiers_nets_ref env he.base.v4 (pktOfD st) _ hn rfl src dst hf (wlRules tiers profiles np) hctN hcpN
+
+-- non-vacuity of the extended fragment: "allow tcp from set 7 to ports 80,8000-8080, not to set 9"
+def exFull : Rule :=
+  { action := "allow", protocol := some (Proto.name "tcp"), srcIpSetIds := [7], notDstIpSetIds := [9],
+    dstPorts := [{ first := 80, last := 80 }, { first := 8000, last := 8080 }] }
+example : RuleFullN exFull := by
+  refine ⟨⟨Or.inl rfl, trivial, trivial, ⟨rfl, rfl, rfl, rfl, rfl⟩, ?_, ?_, ?_, ⟨trivial, trivial⟩, by decide⟩,
+    by intro n hn; simp [exFull] at hn⟩
+  · intro pr h
+    simp [exFull, clearNets] at h
+    rcases h with rfl | rfl <;> exact ⟨by decide, by decide, by decide⟩
+  · intro _; exact ⟨_, 6, rfl, by decide, Or.inl rfl⟩
+  · intro h; rcases h with h | h <;> exact absurd rfl h
+-- ... and so is the CIDR rule of the checker fragment
+example : RuleFullN exNets := by
+  refine ⟨⟨Or.inl rfl, trivial, trivial, ⟨rfl, rfl, rfl, rfl, rfl⟩, ?_, ?_, ?_, ⟨trivial, trivial⟩, by decide⟩, ?_⟩
+  · intro pr h; simp [exNets, clearNets] at h
+  · intro h; exact absurd rfl h
+  · intro h; rcases h with h | h <;> exact absurd rfl h
+  · intro n hn; simp [exNets] at hn; rcases hn with rfl | rfl <;> rfl
 
 -- non-vacuity of the layout hypotheses `hT` / `hP`: one tier holding one single-policy group, one profile
 example (env9 : Netfilter.Env) (pkt9 : Netfilter.Packet) (rs ps : List Rule) :
